@@ -28,7 +28,7 @@ MULTI = drv.MULTI_KINDS
 
 def _pass_key(a):
     return json.dumps([a["mech"], a["K"], a["I"], a["ht"], a["scr"], a["reg"], a["sec"], a["fresh"], a["ic"],
-                       a.get("field"), a.get("pos")])
+                       a.get("field"), a.get("pos"), a.get("sc"), a.get("via")])
 
 
 def _case_key(rec):
@@ -313,7 +313,7 @@ def run(ctx):
                 ctx.fail(key, what, detail)
         # binding self-test: a behaviour whose expected outcome is corrupted must be rejected
         rec = {"k": "beh", "coin": "BTC", "shape": [{"kind": "p2pkh", "m": 1, "keys": [1], "form": "c"}],
-               "acts": [{"mech": "lookup", "K": [1], "I": [1], "ht": 1, "scr": True, "reg": [], "sec": [], "fresh": True, "ic": "none",
+               "acts": [{"mech": "lookup", "K": [1], "I": [1], "ht": 1, "scr": True, "reg": [], "sec": [], "fresh": True, "ic": "none", "sc": "list", "via": "paths",
                          "sup": [1], "touch": [1], "allowed": [{"s": [[[1, 1]]], "v": [True], "bad": 0, "raises": False}]}],
                "outs": [{"signed": [[[1, 1]]], "valid": [True]}],
                "flags": ["P2SH", "STRICTENC", "DERSIG", "LOW_S", "NULLDUMMY", "CLEANSTACK", "WITNESS", "NULLFAIL"], "sigbyte": 1}
@@ -381,6 +381,9 @@ def _record_random(args):
     for t in range(count):
         coin = rnd.choice(drv.COINS)
         shape = [_random_desc(rnd, coin, big) for _ in range(rnd.randint(1, 4 if not big else 5))]
+        if rnd.random() < 0.3:
+            # address reuse: the same puzzle (same keys, byte-identical script) at two positions
+            shape.insert(rnd.randint(0, len(shape)), dict(rnd.choice(shape)))
         small = len(shape) <= 3 and all(len(d["keys"]) <= 4 for d in shape)
         ses = drv.Session(coin, shape, n_out=rnd.randint(1, 3))
         bits = drv.flag_bits(policy_names_for(coin))
@@ -412,7 +415,8 @@ def _record_random(args):
             else:
                 I, ic = list(range(1, n + 1)), rnd.choice(["none", "none", "list", "set"])
             p = {"mech": mech, "K": sorted(set(K)), "I": I, "ht": rnd.choice([1, 1, 2, 3, 129, 130, 131]),
-                 "scr": rnd.random() < 0.85, "reg": [], "sec": [], "fresh": True, "ic": ic}
+                 "scr": rnd.random() < 0.85, "reg": [], "sec": [], "fresh": True, "ic": ic,
+                 "sc": rnd.choice(["list", "tuple", "set", "gen", "iter"]), "via": rnd.choice(["paths", "keys12", "keys21"])}
             if mech == "keychain":
                 p["reg"] = p["K"]
                 p["K"] = []
@@ -422,7 +426,7 @@ def _record_random(args):
                     # edit the long-lived keychain in a step of its own, then sign with what it holds
                     add = {"mech": "kc_add", "K": [], "I": [], "ht": 1, "scr": p["scr"] and rnd.random() < 0.7,
                            "reg": p["reg"] if rnd.random() < 0.7 else [], "sec": p["sec"] if rnd.random() < 0.7 else [],
-                           "fresh": False, "ic": "set"}
+                           "fresh": False, "ic": "set", "sc": rnd.choice(["list", "gen", "iter"]), "via": p["via"]}
                     ses.sign(add)
                     e = dict(add)
                     e.update({"bad": ses.tx.bad_solution_count(), "raised": False, "nsig": [x["nsig"] for x in last_pr],
@@ -437,7 +441,7 @@ def _record_random(args):
             if not ev and small and rnd.random() < 0.5:
                 # the one-call front-end: build + sign with WIFs; it raises or returns a transaction
                 p = {"mech": "create_signed", "K": sorted(set(k for k in K if k <= 24)), "I": list(range(1, n + 1)), "ht": p["ht"],
-                     "scr": p["scr"], "reg": [], "sec": [], "fresh": True, "ic": "none"}
+                     "scr": p["scr"], "reg": [], "sec": [], "fresh": True, "ic": "none", "sc": p["sc"], "via": "paths"}
                 mech = "create_signed"
             before = [drv.unlocking_of(ses.tx, i) for i in range(n)]
             stale_single = any((i + 1) in p["I"] and not last_pr[i]["valid"] and last_pr[i]["nsig"] > 0 and shape[i]["kind"] not in MULTI
@@ -479,7 +483,7 @@ def _record_random(args):
                     field = "lock"
                 pos = 0 if field in ("ver", "lock") else rnd.randint(1, nout_now if field.startswith("out_") else n)
                 ed = {"mech": "edit", "field": field, "pos": pos, "K": [], "I": [], "ht": 1, "scr": False, "reg": [], "sec": [],
-                      "fresh": False, "ic": "set"}
+                      "fresh": False, "ic": "set", "sc": "list", "via": "paths"}
                 ses.sign(ed)
                 pr = [drv.project_input(coin, ses.tx, i, pz, bits) for i, pz in enumerate(ses.puzzles)]
                 ed.update({"signed": [x["signed"] for x in pr], "valid": [x["valid"] for x in pr], "reported": [x["ok_api"] for x in pr],
@@ -552,7 +556,8 @@ def _trace_key(t, j, exp):
         return "C05|edit|signatures-after-edit-differ-from-commitment-table|field=%s" % e["field"]
     if any(k > d["m"] for k, d in zip(e.get("nsig", []), t["shape"])):
         return "C05|accumulated-signatures|kindclass=%s" % ("multi" if any(k > d["m"] and d["kind"] in MULTI for k, d in zip(e["nsig"], t["shape"])) else "single")
-    if e["frame"] != t["frame"]:
+    frame_now = ([x["frame"] for x in t["ev"][:j] if x["mech"] == "edit"] or [t["frame"]])[-1]   # the caller's edits move it
+    if e["mech"] != "edit" and e["frame"] != frame_now:
         return "C05|frame|changed"
     if exp is None:
         return "C05|trace|unexplained"
@@ -657,7 +662,7 @@ def replay(ctx, obj):
     ses = drv.Session(coin, shape)
     bits = drv.flag_bits(policy_names_for(coin))
     for a in acts:
-        p = {k: a.get(k, "none" if k == "ic" else None) for k in ("mech", "K", "I", "ht", "scr", "reg", "sec", "fresh", "ic", "field", "pos")}
+        p = {k: a.get(k, "none" if k == "ic" else None) for k in ("mech", "K", "I", "ht", "scr", "reg", "sec", "fresh", "ic", "field", "pos", "sc", "via")}
         try:
             ses.sign(p)
             exc = None
